@@ -1,8 +1,8 @@
 from _common import COMMON_NOTE
 
 META = {'title': 'A playing tape presents each TAP block as the standard loader waveform',
- 'lean_modules': ['ZxVerif.Props.C11', 'ZxVerif.Props.C11X', 'ZxVerif.Props.C11Sys'],
- 'extract': ['TapeConsts'],
+ 'lean_modules': ['ZxVerif.Props.C11', 'ZxVerif.Props.C11X', 'ZxVerif.Props.C11Sys', 'ZxVerif.Props.C11Y'],
+ 'extract': ['TapeConsts', 'TapeMachine'],
  'modelled_code': ['rustzx-core/src/zx/tape/tap.rs (process_clocks, the pulse state machine, pulse constants, '
                    'next_block/next_block_byte feeding it)',
                    'rustzx-core/src/zx/tape/mod.rs (TapeImpl)',
@@ -36,7 +36,9 @@ META = {'title': 'A playing tape presents each TAP block as the standard loader 
                'in nominal order, and the pulses provably arrive. The model is tied to the Rust code on '
                'every run by an exact edge-time correspondence under seeded schedules, the executable waveform spec '
                'adjudicating; the real 48K ROM loads sample tapes in real time and is compared with LD-BYTES spec and '
-               'fast loading, and the EAR waveform is sampled through the real machine under arbitrary CPU activity.',
+               'fast loading, and the EAR waveform is sampled through the real machine under arbitrary CPU activity. The state machine of '
+               'process_clocks is also translated arm by arm from tap.rs on every run (table TapeMachine) and proved equal to '
+               'the model (Props/C12X); Props/C11Y restates the waveform theorem over the translated function.',
  'level_note': COMMON_NOTE + ' Partial: the ROM loader\'s own edge-timing loop is not modelled; "the ROM loader loads any '
                'tape" rests on the threshold-decoder theorem plus sampled real-ROM runs.',
  'timeout_s': {'quick': 900, 'thorough': 6 * 3600}}
